@@ -727,7 +727,8 @@ def prepare(verif_seed, index):
 def run_one(verif_seed, index, tier='quick'):
     seed = rngm.run_seed(verif_seed, PROP, index)
     useed = rngm.derive('universe', verif_seed, PROP, index // RUNS_PER_UNIVERSE)
-    pl = Planner(seed, useed, PROP, universe_fn=gen_universe, kinds_pool=KINDS, runs_per_universe=RUNS_PER_UNIVERSE)
+    pl = Planner(seed, useed, PROP, universe_fn=gen_universe, kinds_pool=KINDS, runs_per_universe=RUNS_PER_UNIVERSE,
+                 scale=C.scale_of(tier, index, RUNS_PER_UNIVERSE))
     plan = pl.plan(index, verif_seed)
     if plan is None:
         return {'index': index, 'empty': True}
